@@ -890,6 +890,84 @@ fn o_body(fmt: u16, bytes: &[u8]) -> Result<Option<Value>, ()> {
     }
 }
 
+/// JSON text → `Value` without serde_json's 128-level recursion limit (responses may be thousands of levels deep);
+/// scalars and string literals are handed to serde_json.
+fn parse_json_deep(b: &[u8]) -> Option<Value> {
+    fn ws(b: &[u8], i: &mut usize) {
+        while *i < b.len() && matches!(b[*i], b' ' | b'\n' | b'\r' | b'\t') {
+            *i += 1;
+        }
+    }
+    fn string(b: &[u8], i: &mut usize) -> Option<String> {
+        let start = *i;
+        *i += 1;
+        while *i < b.len() && b[*i] != b'"' {
+            *i += if b[*i] == b'\\' { 2 } else { 1 };
+        }
+        *i += 1;
+        serde_json::from_slice::<String>(b.get(start..*i)?).ok()
+    }
+    fn value(b: &[u8], i: &mut usize) -> Option<Value> {
+        ws(b, i);
+        match *b.get(*i)? {
+            b'{' => {
+                *i += 1;
+                let mut m = Map::new();
+                ws(b, i);
+                if b.get(*i) == Some(&b'}') {
+                    *i += 1;
+                    return Some(Value::Object(m));
+                }
+                loop {
+                    ws(b, i);
+                    let k = string(b, i)?;
+                    ws(b, i);
+                    if b.get(*i) != Some(&b':') { return None; }
+                    *i += 1;
+                    let v = value(b, i)?;
+                    m.insert(k, v);
+                    ws(b, i);
+                    match b.get(*i)? {
+                        b',' => *i += 1,
+                        b'}' => { *i += 1; return Some(Value::Object(m)); }
+                        _ => return None,
+                    }
+                }
+            }
+            b'[' => {
+                *i += 1;
+                let mut a = Vec::new();
+                ws(b, i);
+                if b.get(*i) == Some(&b']') {
+                    *i += 1;
+                    return Some(Value::Array(a));
+                }
+                loop {
+                    a.push(value(b, i)?);
+                    ws(b, i);
+                    match b.get(*i)? {
+                        b',' => *i += 1,
+                        b']' => { *i += 1; return Some(Value::Array(a)); }
+                        _ => return None,
+                    }
+                }
+            }
+            b'"' => string(b, i).map(Value::String),
+            _ => {
+                let start = *i;
+                while *i < b.len() && !matches!(b[*i], b',' | b'}' | b']' | b' ' | b'\n') {
+                    *i += 1;
+                }
+                serde_json::from_slice::<Value>(&b[start..*i]).ok()
+            }
+        }
+    }
+    let mut i = 0;
+    let v = value(b, &mut i)?;
+    ws(b, &mut i);
+    if i == b.len() { Some(v) } else { None }
+}
+
 /// One request through the router mount.  `lookup` selects the handler (`Router::get`); the message carries
 /// `query` (normally the same text; `None` = bytes that are not UTF-8), the header fields of `hdr`
 /// (`id:notify:query_format`, all ignored by the handler) and the body; `via` picks the handler entry point.
@@ -925,7 +1003,7 @@ fn mount_request(ctx: &mut Ctx, lookup: &str, query: Option<&str>, via: u8, hdr:
     };
     // a success carries a JSON body; an error response (UTF-8 text) may carry ANY code the callable chose, 0 included
     Some(if resp.header.ec == 0 && resp.header.body_format == 2 {
-        Ok(serde_json::from_slice::<Value>(&resp.body).expect("json response body"))
+        Ok(parse_json_deep(&resp.body).expect("json response body"))
     } else {
         Err(resp.header.ec)
     })
@@ -1752,7 +1830,7 @@ impl SeqGen {
                 (0..d).map(|_| format!("/{}", o_escape(r.pick(&["qqqqqqqqqqqqqqqqqqqqqqqqqqqqqqqqqqqqqqqqqqqqqqqqqqqqqqqqqqqqqqqqqqqqqqqqqqqqqqqq", "x/y~x/y~x/y~x/y~x/y~x/y~x/y~x/y~x/y~x/y~x/y~x/y~"])))).collect()
             } else if r.chance(1, 6) {
                 // deep: more reference tokens than any fixed-size segment buffer would hold
-                let d = r.range(15, 40);
+                let d = if r.chance(1, 3) { *r.pick(&[63u64, 64, 65, 66, 127, 129, 257]) } else { r.range(15, 40) };
                 (0..d).map(|_| format!("/{}", o_escape(r.pick(&["a", "b", "0", "x/y", ""])))).collect()
             } else {
                 gen_pointer(r, 4)
@@ -1874,6 +1952,64 @@ fn gen_sequence(r: &mut Rng, k: &mut u64, ops: &mut Vec<String>, max_len: u64, t
             next(ops, "dump".into());
         }
     }
+    next(ops, "dump".into());
+}
+
+/// One sequence on a document that really is `depth` levels deep: `/d0/d1/…/d(depth-1)` is an object holding
+/// `target`, `keep` and a callable `run`.  Reads, writes, merges, registrations and calls at depth, depth+1 and
+/// depth+2 – existing and non-existing targets, the ancestor, the sibling, and the escaped alias
+/// `…/d(depth-2)/d(depth-1)~1target`, which addresses a member that does not exist.
+fn gen_deep(r: &mut Rng, k: &mut u64, ops: &mut Vec<String>, depth: usize) {
+    let mut next = |ops: &mut Vec<String>, s: String| {
+        let (name, rest) = s.split_once(' ').map(|(a, b)| (a.to_string(), format!(" {b}"))).unwrap_or((s.clone(), String::new()));
+        ops.push(format!("{} {}{}", name, *k, rest));
+        *k += 1;
+    };
+    let chain = |n: usize| -> String { (0..n).map(|i| format!("/d{i}")).collect() };
+    let c = chain(depth);
+    let parent = chain(depth.saturating_sub(1));
+    next(ops, "reset".into());
+    next(ops, "router bare with \"/api\"".into());
+    if r.chance(1, 2) {
+        next(ops, OpR::SetRoot(json!({"other": [1, 2]})).words());
+    }
+    // install the chain in one registration (every missing ancestor is created) …
+    next(ops, OpR::RegV(format!("{c}/target"), json!(1)).words());
+    next(ops, OpR::RegV(format!("{c}/keep"), json!({"k": [0, 1]})).words());
+    let mut body: Vec<OpR> = vec![
+        OpR::Read(format!("{c}/target")),
+        OpR::Disp(format!("{c}/keep/k/1"), None),
+        OpR::Read(format!("{c}/missing")),
+        OpR::Read(c.clone()),
+        OpR::Read(parent.clone()),
+        OpR::Disp(format!("{c}/target"), Some(json!(7))),
+        OpR::Disp(format!("{c}/new"), Some(json!({"n": 8}))),
+        OpR::Disp(format!("{c}/new/n"), Some(json!(9))),
+        OpR::Disp(format!("{c}/missing/x"), Some(json!(9))),
+        OpR::Disp(format!("{c}/keep/k/+1"), Some(json!("w"))),
+        OpR::MergeAt(c.clone(), json!({"m": 1, "target": 2})),
+        OpR::MergeAt(format!("{c}/nope"), json!({"m": 1})),
+        OpR::RegF(format!("{c}/run"), 1, None),
+        OpR::Disp(format!("{c}/run"), Some(json!({"x": 1}))),
+        OpR::Disp(format!("{c}/run"), None),
+        OpR::RegF(format!("{c}/keep/deeper/run"), 2, Some(9)),
+        OpR::Disp(format!("{c}/keep/deeper/run"), Some(json!([1]))),
+        OpR::RegV(format!("{c}/keep/deeper/v"), json!(3)),
+        OpR::Read(format!("{c}/keep/deeper/v")),
+    ];
+    if depth >= 1 {
+        // the escaped spelling of "last level + member" as ONE token: a different, non-existing member
+        let last = format!("d{}", depth - 1);
+        body.push(OpR::Read(format!("{parent}/{}", o_escape(&format!("{last}/target")))));
+        body.push(OpR::Disp(format!("{parent}/{}", o_escape(&format!("{last}/run"))), Some(json!(5))));
+        body.push(OpR::Read(format!("{c}/target")));
+    }
+    r.shuffle(&mut body[5..]);
+    for op in body {
+        next(ops, op.words());
+    }
+    next(ops, OpR::Read(format!("{c}/target")).words());
+    next(ops, OpR::Read(format!("{c}/keep")).words());
     next(ops, "dump".into());
 }
 
@@ -2040,9 +2176,17 @@ fn main() {
     let ops: Vec<String> = if let Some(ops) = args.replay_ops() {
         ops
     } else if family == "seq" {
-        out.rule = "random op sequences (5..100 ops after reset+router) of register_value / register_function (echoing or failing callables) / merge_at / merge_root / set_root / read_value / dispatch read / dispatch with body / requests through a Router::with_registry mount (6 prefix sets; json, beve, utf8, raw, broken bodies), pointers drawn from a per-sequence pool grown by child/parent steps over tokens {a,b,c,'',0,1,01,+1,++1,-,2,00,+0,x/y,m~n,~,/,é,'k k',2^64-1,2^64,-1,+,1e0,~1,~0,/0,/1,~/,a~1b,/~,~01 (escaped: ~01,~00,~10,~11,~0~1,a~01b,~1~0,~001)} plus root forms and malformed pointers (no slash, ~2, trailing ~); parse_json_pointer / eval_json_pointer on well-formed and lenient inputs; exhaustive enumeration of all op sequences over 3 pointers x 3 values (27 ops) in domains d1 (nesting), d2 (escapes + root), d3 (array indices), d4 (keys `~1` and `/`: pointers /~01, /~1, /~01/~10), d5 (index spellings ++1, +01, -0). Distinct by op line; non-trivial = the operation succeeded (Ok result)".into();
+        out.rule = "random op sequences (5..100 ops after reset+router) of register_value / register_function (echoing or failing callables) / merge_at / merge_root / set_root / read_value / dispatch read / dispatch with body / requests through a Router::with_registry mount (6 prefix sets; json, beve, utf8, raw, broken bodies), pointers drawn from a per-sequence pool grown by child/parent steps over tokens {a,b,c,'',0,1,01,+1,++1,-,2,00,+0,x/y,m~n,~,/,é,'k k',2^64-1,2^64,-1,+,1e0,~1,~0,/0,/1,~/,a~1b,/~,~01 (escaped: ~01,~00,~10,~11,~0~1,a~01b,~1~0,~001)} plus root forms and malformed pointers (no slash, ~2, trailing ~); parse_json_pointer / eval_json_pointer on well-formed and lenient inputs; exhaustive enumeration of all op sequences over 3 pointers x 3 values (27 ops) a depth ladder (documents 1..1000, thorough 4096, levels deep: reads, writes, merges, registrations, calls at depth, depth+1, depth+2, the sibling, the ancestor and the escaped alias of the last two tokens); in domains d1 (nesting), d2 (escapes + root), d3 (array indices), d4 (keys `~1` and `/`: pointers /~01, /~1, /~01/~10), d5 (index spellings ++1, +01, -0). Distinct by op line; non-trivial = the operation succeeded (Ok result)".into();
         let mut ops = Vec::new();
         let mut k = 0u64;
+        // depth ladder: documents that really are that deep, around every power of two a parser might cap at
+        let mut depths: Vec<usize> = vec![1, 2, 15, 16, 17, 31, 32, 33, 62, 63, 64, 65, 66, 127, 128, 129, 255, 256, 257, 1000];
+        if thorough {
+            depths.extend([511, 512, 513, 1023, 1024, 1025, 4096]);
+        }
+        for d in depths {
+            gen_deep(&mut rng, &mut k, &mut ops, d);
+        }
         let nseq = if thorough { 4000 } else { 400 };
         for _ in 0..nseq {
             gen_sequence(&mut rng, &mut k, &mut ops, 100, thorough);
